@@ -446,99 +446,86 @@ func typedErrorsUnwrapped(p *Prog) (out []gFinding) {
 // smaller than the old size: a signature shorter than the one it replaces has to take the tail
 // of the old one away. A running maximum seeded with the old size cannot shrink.
 func truncateNotMax(p *Prog) (out []gFinding) {
-	fn := p.Func("lib/binpatch.(*PatchSet).Apply")
-	if fn == nil {
+	site := p.applyInPlaceSite()
+	if site == nil {
 		return []gFinding{{Key: "(*PatchSet).Apply", Pos: "-", OK: false, Detail: "function not found"}}
 	}
+	fn := site.ap
 	n := 0
-	for _, b := range fn.Blocks {
-		for _, in := range b.Instrs {
-			ci, ok := in.(ssa.CallInstruction)
+	for _, tr := range site.truncs {
+		n++
+		args := tr.call.Common().Args
+		size := args[len(args)-1]
+		key := fmt.Sprintf("%s Truncate#%d", p.FName(fn), n)
+		isMax := ""
+		// every phi the size passes through, in whichever function of Apply's family it lives
+		for _, fv := range site.expand(fnVal{tr.fn, size}) {
+			ph, ok := fv.v.(*ssa.Phi)
 			if !ok {
 				continue
 			}
-			name := p.calleeName(ci.Common())
-			if !strings.HasSuffix(name, ".Truncate") {
-				continue
+			if at := phiIsMaximum(p, fv.fn, ph); at != "" {
+				isMax = at
 			}
-			n++
-			args := ci.Common().Args
-			size := args[len(args)-1]
-			key := fmt.Sprintf("%s Truncate#%d", p.FName(fn), n)
-			// a maximum: a phi one of whose incoming values e arrives only over an edge guarded by
-			// `e > phi` / `phi < e` (or >=, <=)
-			isMax := ""
-			seen := map[ssa.Value]bool{}
-			var walk func(v ssa.Value)
-			walk = func(v ssa.Value) {
-				v = stripConv(v)
-				if v == nil || seen[v] {
-					return
-				}
-				seen[v] = true
-				ph, ok := v.(*ssa.Phi)
-				if !ok {
-					return
-				}
-				for _, e := range ph.Edges {
-					walk(e)
-				}
-				for _, blk := range fn.Blocks {
-					ifi, ok := blk.Instrs[len(blk.Instrs)-1].(*ssa.If)
-					if !ok {
-						continue
-					}
-					bo, ok := ifi.Cond.(*ssa.BinOp)
-					if !ok {
-						continue
-					}
-					switch bo.Op {
-					case token.GTR, token.GEQ, token.LSS, token.LEQ:
-					default:
-						continue
-					}
-					x, y := stripConv(bo.X), stripConv(bo.Y)
-					for _, e := range ph.Edges {
-						e = stripConv(e)
-						if _, isPhi := e.(*ssa.Phi); isPhi {
-							continue
-						}
-						involvesPhi := func(o ssa.Value) bool {
-							if o == ssa.Value(ph) {
-								return true
-							}
-							if op, ok := o.(*ssa.Phi); ok {
-								for _, oe := range op.Edges {
-									if stripConv(oe) == ssa.Value(ph) {
-										return true
-									}
-								}
-								for _, pe := range ph.Edges {
-									if stripConv(pe) == o {
-										return true
-									}
-								}
-							}
-							return false
-						}
-						if (x == e && involvesPhi(y)) || (y == e && involvesPhi(x)) {
-							isMax = p.Pos(ifi.Pos())
-							if isMax == "-" || isMax == "" {
-								isMax = p.Pos(lastPos(blk))
-							}
-						}
-					}
-				}
-			}
-			walk(size)
-			out = append(out, gFinding{Key: key, Pos: p.Pos(in.Pos()), OK: isMax == "",
-				Detail: "the size the file is truncated to is only replaced when the new end is larger (comparison at " + isMax + "): the in-place path can grow the file but never shrink it, so re-signing with a shorter signature leaves the tail of the old one behind (PE: 'trailing garbage after existing certificate')"})
 		}
+		out = append(out, gFinding{Key: key, Pos: p.Pos(tr.call.Pos()), OK: isMax == "",
+			Detail: "the size the file is truncated to is only replaced when the new end is larger (comparison at " + isMax + "): the in-place path can grow the file but never shrink it, so re-signing with a shorter signature leaves the tail of the old one behind (PE: 'trailing garbage after existing certificate')"})
 	}
 	if n == 0 {
 		out = append(out, gFinding{Key: p.FName(fn) + " truncates", Pos: p.Pos(fn.Pos()), OK: false, Detail: "no Truncate call found in the in-place path"})
 	}
 	return out
+}
+
+// phiIsMaximum: ph is a running maximum: one of its incoming values e arrives only over an edge
+// guarded by `e > ph` / `ph < e` (or >=, <=). Returns the position of the comparison, or "".
+func phiIsMaximum(p *Prog, fn *ssa.Function, ph *ssa.Phi) string {
+	isMax := ""
+	for _, blk := range fn.Blocks {
+		ifi, ok := blk.Instrs[len(blk.Instrs)-1].(*ssa.If)
+		if !ok {
+			continue
+		}
+		for _, bo := range condCompares(ifi.Cond) {
+			switch bo.Op {
+			case token.GTR, token.GEQ, token.LSS, token.LEQ:
+			default:
+				continue
+			}
+			x, y := stripConv(bo.X), stripConv(bo.Y)
+			for _, e := range ph.Edges {
+				e = stripConv(e)
+				if _, isPhi := e.(*ssa.Phi); isPhi {
+					continue
+				}
+				involvesPhi := func(o ssa.Value) bool {
+					if o == ssa.Value(ph) {
+						return true
+					}
+					if op, ok := o.(*ssa.Phi); ok {
+						for _, oe := range op.Edges {
+							if stripConv(oe) == ssa.Value(ph) {
+								return true
+							}
+						}
+						for _, pe := range ph.Edges {
+							if stripConv(pe) == o {
+								return true
+							}
+						}
+					}
+					return false
+				}
+				if (x == e && involvesPhi(y)) || (y == e && involvesPhi(x)) {
+					isMax = p.Pos(ifi.Pos())
+					if isMax == "-" || isMax == "" {
+						isMax = p.Pos(lastPos(blk))
+					}
+				}
+			}
+		}
+	}
+	return isMax
 }
 
 // c08WrapExceptions: wrapping sites that cannot change the probe's verdict, each confirmed by reading.
